@@ -105,6 +105,23 @@ fn cut_programs(rng: &mut Rng) -> (Vec<Clause>, Vec<QuerySpec>) {
     (clauses, queries)
 }
 
+/// Miri runs the engine some thousand times slower than native code: the slow predicates of the
+/// shared generator (w^d goal attempts) are kept only when they are small.
+fn too_expensive(scn: &Scenario) -> bool {
+    let w = scn.clauses.iter().filter(|c| c.functor == "t").count() as u64;
+    for c in &scn.clauses {
+        if c.functor == "spin" || c.functor == "gen" {
+            if let Some(GoalSpec::And(gs)) = &c.body {
+                let d = gs.iter().filter(|g| matches!(g, GoalSpec::Call(f, _) if f == "t")).count() as u32;
+                if w.pow(d) > 130 {
+                    return true;
+                }
+            }
+        }
+    }
+    false
+}
+
 fn uses_cut(scn: &Scenario) -> bool {
     scn.clauses.iter().any(|c| c.body.as_ref().map(|b| b.contains(&|g| matches!(g, GoalSpec::Cut))).unwrap_or(false))
 }
@@ -117,9 +134,12 @@ fn make_scenario(seed: u64, part: &str, index: u64) -> (Scenario, Vec<MOp>) {
     let family = ["C05", "C22", "C23"][(index % 3) as usize];
     let mut scn = gen_scenario(family, &mut rng);
     let mut tries = 0;
-    while tries < 50 && ((part == "cutfree" && uses_cut(&scn)) || scn.clauses.len() > 30) {
+    while tries < 50 && ((part == "cutfree" && uses_cut(&scn)) || scn.clauses.len() > 30 || too_expensive(&scn)) {
         scn = gen_scenario(family, &mut rng);
         tries += 1;
+    }
+    if too_expensive(&scn) {
+        scn.clauses.retain(|c| c.functor != "spin" && c.functor != "gen");
     }
     if part == "cutfree" && uses_cut(&scn) {
         // give up on the generator: strip the rules that contain a cut
